@@ -187,6 +187,10 @@ func fileDatasource(c *props.Ctx) {
 	rec(nil)
 	per := 0
 	for _, s := range seqs {
+		if c.Expired() {
+			c.R.Cap("time budget reached before all file event sequences were explored")
+			break
+		}
 		v := runFileSeq(root, s)
 		c.R.Evaluations++
 		c.R.Transitions += int64(len(s))
